@@ -618,6 +618,22 @@ def stream_rules(ck, fb):
     ck.ok("S.sticky", "OVMB reader call graph", "%d raw istream read/seek/tell sites in %d reader-reachable functions, none followed by a state reset anywhere in the reader" % (n, len(reach)))
     ck.canary("canary_s (reader code clearing the stream state)", canary)
     ck.floor("istream_raw_sites", n, 1)
+    # the verdict of S.write rests on the stream's state: every byte has to go through an operation that records failure there
+    ck.rule("S.raw", "the writers hand their bytes to the std::ostream only through ostream::write / operator<< (which set badbit on a short write); nothing writes through the stream buffer (rdbuf()->sputn/sputc), whose failures leave good() true")
+    nraw = 0
+    for f in fb.fns.values():
+        if not f.has_cfg or not ("/IO/" in f.file or "/FileManager/" in f.file) or "/src/OpenVolumeMesh/" not in f.file:
+            continue
+        for b, i, c in f.nodes(("call",)):
+            pn = c.get("pn", "")
+            if pn.startswith("std::basic_ostream") and pn.split("::")[-1] in ("write", "put"):
+                nraw += 1
+            if (pn.startswith("std::basic_streambuf") and pn.split("::")[-1] in ("sputn", "sputc", "xsputn", "pubsync")) or (pn.split("::")[-1] == "rdbuf" and pn.startswith("std::basic_ios") and not c.get("a")):
+                if b in f.reach():
+                    ck.violate("S.raw", f.loc(c), "%s writes through the stream buffer (%s): a failed write does not reach the stream state that S.write tests" % (f.pq.split("::")[-1], pn.split("::")[-1]), "S.raw:%s" % f.pq)
+    if not any(o["rule"] == "S.raw" and o["status"] == "violated" for o in ck.oblig):
+        ck.ok("S.raw", "OVMB/OVM writers", "%d ostream::write/put sites, no access to the stream buffer" % nraw)
+        ck.floor("ostream_write_sites", nraw, 1)
     nw = 0
     for f in fb.by_cls.get(BFW, []):
         if not f.has_cfg or "WriteResult" not in (f.d.get("ret") or ""):
